@@ -56,7 +56,8 @@ LEAN = dict(
         "(|y-model|*2tol + 4tol^2)/sigma^2 + 64*eps32*(|nll| + n_obs*(|log sigma|+1)); event NLL: 64*eps32*(1+rho)*(survival + |log hazard| + 1); "
         "mean(xi): n*2*eps32*max|xi|; orthogonality: |<row, a>| <= 64*eps32*||a||_2*sum_j|betas_js| (times sum|sources| for a shift)",
         "the Householder hypothesis a_j != 0 is discharged by v0 = exp(.) > 0, metric > 0; the excluded point is run on the real code and reported in evidence",
-        "orthonormality (dtype eps = 2^-24 float32 / 2^-53 float64, dimension <= 6): |B^T B - I|, |B B^T + a a^T/|a|^2 - I| <= 64*eps entrywise "
+        "orthonormality (dtype eps = 2^-24 float32 / 2^-53 float64, dimension <= 12; for a 2-D metric the direction G @ dgamma is formed in double by the "
+        "predicate and the rounding of the function's own product, (d+2) eps |G||dgamma|, is added): |B^T B - I|, |B B^T + a a^T/|a|^2 - I| <= 64*eps entrywise "
         "(each entry is a sum of <= 6 products of entries of magnitude <= 1 that carry a few ulps each from the norm, the division and 1 - 2 v_i v_k); "
         "model Gram matrices against the implementation's: 64*eps (times max G for the metric-weighted one)",
         "idempotence / orbit of the centring: the first centring leaves a float32 mean r with |r| <= 2(n+2)*eps32*(max|xi|+|m|), so a second centring moves every "
@@ -90,21 +91,33 @@ def val(env, v):
 
 
 # ----------------------------------------------------------------------------------------------
-def settings_for(rng, kind, d, ns):
+def settings_for(rng, kind, d, ns, opts=None):
+    """opts (all optional): wide (positions / velocities / mixing coefficients to the edge of what the models accept),
+    bern (binary outcomes, logistic kind), nb_events (joint kind)."""
+    opts = opts or {}
+    wide = bool(opts.get("wide"))
     P = {}
     name = kind
     obs = {"y": "gaussian-diagonal" if d > 1 else "gaussian-scalar"}
     extra = {}
+
+    def logv0():
+        u = rng.random()
+        if u < 0.25:                 # slowly changing outcomes / ages in another unit: tiny velocities
+            return rng.uniform(-14, -9)
+        if wide and u < 0.45:        # fast outcomes (ages in decades): the whole course within a few years
+            return rng.uniform(-2.0, 0.0)
+        return rng.uniform(-5, -2.0)
     if kind in ("logistic", "joint"):
-        P["log_g_mean"] = [f32(rng.uniform(-1.5, 3.0)) for _ in range(d)]
-        slow = rng.random() < 0.25          # slowly changing outcomes / ages in another unit: tiny velocities
-        P["log_v0_mean"] = [f32(rng.uniform(-14, -9) if slow else rng.uniform(-5, -2.0)) for _ in range(d)]
+        P["log_g_mean"] = [f32(rng.uniform(-4.0, 6.0) if wide else rng.uniform(-1.5, 3.0)) for _ in range(d)]
+        regime = logv0()
+        P["log_v0_mean"] = [f32(regime + rng.uniform(-1.5, 1.5) if wide else (rng.uniform(-14, -9) if regime < -8 else rng.uniform(-5, -2.0))) for _ in range(d)]
     elif kind == "linear":
         P["g_mean"] = [f32(rng.uniform(-0.5, 1.5)) for _ in range(d)]
-        slow = rng.random() < 0.25          # slowly changing outcomes / ages in another unit: tiny velocities
-        P["log_v0_mean"] = [f32(rng.uniform(-14, -9) if slow else rng.uniform(-5, -2.0)) for _ in range(d)]
+        regime = logv0()
+        P["log_v0_mean"] = [f32(regime + rng.uniform(-1.5, 1.5) if wide else (rng.uniform(-14, -9) if regime < -8 else rng.uniform(-5, -2.0))) for _ in range(d)]
     else:  # shared_speed_logistic
-        P["log_g_mean"] = [f32(rng.uniform(-1.5, 3.0))]
+        P["log_g_mean"] = [f32(rng.uniform(-3.0, 5.0) if wide else rng.uniform(-1.5, 3.0))]
         P["deltas_mean"] = [f32(rng.uniform(-1.5, 1.5)) for _ in range(d - 1)]
         if d > 1 and rng.random() < 0.35:
             # an early marker already saturated, or a late one still normal, at the reference time (outcome within 1% of 0 or 1)
@@ -112,27 +125,36 @@ def settings_for(rng, kind, d, ns):
             P["deltas_mean"][k] = f32(rng.choice([-1, 1]) * rng.uniform(3.2, 6.0))
         P["xi_mean"] = [f32(rng.uniform(-4, -1))]
     if ns > 0:
-        P["betas_mean"] = [[f32(rng.uniform(-0.3, 0.3)) for _ in range(ns)] for _ in range(d - 1)]
+        bmag = rng.choice([0.3, 0.3, 3.0, 0.01]) if wide else 0.3
+        P["betas_mean"] = [[f32(rng.uniform(-bmag, bmag)) for _ in range(ns)] for _ in range(d - 1)]
+        if wide and rng.random() < 0.2:          # a source that moves nothing (all its coefficients exactly 0)
+            z = rng.randrange(ns)
+            for row in P["betas_mean"]:
+                row[z] = 0.0
     if kind == "joint":
-        P["n_log_nu_mean"] = [f32(rng.uniform(-3.0, -1.0))]
-        P["log_rho_mean"] = [f32(rng.uniform(0.2, 1.8))]
+        ne = int(opts.get("nb_events", 1))
+        P["n_log_nu_mean"] = [f32(rng.uniform(-3.0, -1.0)) for _ in range(ne)]
+        P["log_rho_mean"] = [f32(rng.uniform(0.2, 1.8) if not wide else rng.uniform(-1.0, 2.3)) for _ in range(ne)]
         obs["event"] = "weibull-right-censored-with-sources" if ns > 0 else "weibull-right-censored"
         if ns > 0:
-            P["zeta_mean"] = [[f32(rng.uniform(-0.3, 0.3))] for _ in range(ns)]
-        extra["nb_events"] = 1
+            P["zeta_mean"] = [[f32(rng.uniform(-0.3, 0.3)) for _ in range(ne)] for _ in range(ns)]
+        extra["nb_events"] = ne
         if ns == 0:
             obs["y"] = "gaussian-scalar"   # the joint model without sources only supports the scalar-noise observation model
+    if opts.get("bern") and kind == "logistic":
+        obs["y"] = "bernoulli"
     P["tau_mean"] = [f32(rng.uniform(60, 80))]
     P["tau_std"] = [f32(rng.uniform(3, 10))]
     P["xi_std"] = [f32(rng.uniform(.2, 1))]
-    P["noise_std"] = [f32(rng.uniform(.05, .2)) for _ in range(d)] if obs["y"] == "gaussian-diagonal" else f32(0.1)
+    if obs["y"] != "bernoulli":
+        P["noise_std"] = [f32(rng.uniform(.05, .2)) for _ in range(d)] if obs["y"] == "gaussian-diagonal" else f32(0.1)
     s = {"leaspy_version": "2.0.0-dev", "name": name, "features": [f"Y{k}" for k in range(d)], "dimension": d,
          "obs_models": obs, "parameters": P, "source_dimension": ns}
     s.update(extra)
     return s
 
 
-def make_table(rng, n, d, joint):
+def make_table(rng, n, d, joint, binary=False, nb_events=1):
     rows = []
     # sometimes one individual has no observed value at all (every feature missing at each of its visits: a subject
     # followed for the event only, or a table read with drop_full_nan=False): the gauge must hold for it as well
@@ -142,7 +164,9 @@ def make_table(rng, n, d, joint):
         t0 = rng.uniform(55, 80)
         ts = sorted({round((t0 + rng.uniform(0, 10)) * 16) / 16 for _ in range(nv)})
         et = round((ts[-1] + rng.uniform(0.5, 6)) * 16) / 16
-        eb = 1 if (i % 2 == 0) else 0        # both censored and observed events are present when n >= 2
+        # both censored and observed events are present when n >= 2; with several competing events the public reader
+        # wants the code of the event that occurred (1 .. nb_events), the largest code present at least once
+        eb = (nb_events if i == 0 else 1 + (i // 2) % nb_events) if (i % 2 == 0) else 0
         for t in ts:
             r = {"ID": f"s{i:02d}", "TIME": t}
             if joint:
@@ -152,7 +176,7 @@ def make_table(rng, n, d, joint):
                 if i == blank:
                     r[f"Y{k}"] = float("nan")
                 elif rng.random() > 0.2 or (k == d - 1 and not some):
-                    r[f"Y{k}"] = round(rng.uniform(0, 1) * 64) / 64
+                    r[f"Y{k}"] = float(rng.random() < 0.5) if binary else round(rng.uniform(0, 1) * 64) / 64
                     some = True
                 else:
                     r[f"Y{k}"] = float("nan")
@@ -160,19 +184,30 @@ def make_table(rng, n, d, joint):
     return rows
 
 
-def build_state(env, chk, rng, kind, d, ns, n_ind, case):
+def read_cohort(env, rows, kind):
+    pd = env["pd"]
+    df = pd.DataFrame(rows)
+    data = env["Data"].from_dataframe(df, data_type="joint", drop_full_nan=False) if kind == "joint" else env["Data"].from_dataframe(df, drop_full_nan=False)
+    return env["Dataset"](data)
+
+
+def build_state(env, chk, rng, kind, d, ns, n_ind, case, opts=None):
     """model + dataset + a random state (population and individual latent variables). Returns None on (reported) failure."""
-    torch, pd = env["torch"], env["pd"]
-    st = settings_for(rng, kind, d, ns)
-    rows = make_table(rng, n_ind, d, kind == "joint")
+    torch = env["torch"]
+    opts = opts or {}
+    wide = bool(opts.get("wide"))
+    st = settings_for(rng, kind, d, ns, opts)
+    ne = int(opts.get("nb_events", 1)) if kind == "joint" else 1
+    rows = make_table(rng, n_ind, d, kind == "joint", binary=(st["obs_models"]["y"] == "bernoulli"), nb_events=ne)
     case.update({"settings": st, "table": rows})
+    if opts:
+        case["opts"] = dict(opts)
     try:
         with core.quiet():
             model = env["BaseModel"].load(st)
-            df = pd.DataFrame(rows)
-            data = env["Data"].from_dataframe(df, data_type="joint", drop_full_nan=False) if kind == "joint" else env["Data"].from_dataframe(df, drop_full_nan=False)
-            ds = env["Dataset"](data)
-            state = model.state.clone(disable_auto_fork=True)
+            ds = read_cohort(env, rows, kind)
+            # the state the algorithms work on keeps its automatic fork; both kinds of clone are used
+            state = model.state.clone(disable_auto_fork=not opts.get("keep_fork"))
             model.put_data_variables(state, ds)
     except Exception as e:  # noqa
         chk.impl_failure(case, f"admissible model / data refused: {err_class(e, env)}: {e}")
@@ -188,16 +223,25 @@ def build_state(env, chk, rng, kind, d, ns, n_ind, case):
         cur = state[name]
         pert = torch.tensor([f32(rng.uniform(-0.05, 0.05)) for _ in range(cur.numel())]).reshape(cur.shape)
         lat[name] = (cur + pert).float()
-    center_big = rng.random() < 0.3
-    lat["xi"] = torch.tensor([[f32(rng.uniform(-1, 1) + (2.0 if center_big else 0.3))] for _ in range(n)])
+    if wide:
+        # a state whose individual parameters are expressed with another speed unit (any offset, either sign, also none at all),
+        # individuals several prior std-devs apart
+        off = rng.choice([0.0, 0.3, -0.3, 2.0, -2.0, rng.uniform(3, 8), -rng.uniform(3, 8), rng.uniform(5, 8), -rng.uniform(5, 8)])
+        spread = rng.choice([1.0, 1.0, 4.5, 0.0])
+        lat["xi"] = torch.tensor([[f32(rng.uniform(-spread, spread) + off)] for _ in range(n)])
+    else:
+        center_big = rng.random() < 0.3
+        lat["xi"] = torch.tensor([[f32(rng.uniform(-1, 1) + (2.0 if center_big else 0.3))] for _ in range(n)])
     # tau below the event time (joint) so that the survival term is moderate
     if kind == "joint":
         ev = ds.event_time.reshape(n, -1)[:, 0].tolist()
-        lat["tau"] = torch.tensor([[f32(e - rng.uniform(2, 25))] for e in ev])
+        # (wide) now and then an event BEFORE the reference time: the prohibitive constant must come through the centring untouched
+        lat["tau"] = torch.tensor([[f32(e + rng.uniform(0.5, 3)) if (wide and rng.random() < 0.15) else f32(e - rng.uniform(2, 25))] for e in ev])
     else:
         lat["tau"] = torch.tensor([[f32(rng.uniform(55, 85))] for _ in range(n)])
     if ns > 0:
-        lat["sources"] = torch.tensor([[f32(rng.uniform(-1.5, 1.5)) for _ in range(ns)] for _ in range(n)])
+        smag = rng.choice([1.5, 1.5, 4.0]) if wide else 1.5
+        lat["sources"] = torch.tensor([[f32(rng.uniform(-smag, smag)) for _ in range(ns)] for _ in range(n)])
     try:
         with core.quiet():
             for k, v in lat.items():
@@ -225,23 +269,27 @@ def snapshot(env, state, kind, ns):
 
 
 # ----------------------------------------------------------------------------------------------
-def center_case(chk, env, rng, kind, d, ns, n_ind, lines, pending, forced=None):
+def center_case(chk, env, rng, kind, d, ns, n_ind, lines, pending, forced=None, opts=None, expect_after=None):
     np, torch = env["np"], env["torch"]
     case = {"op": "center", "kind": kind, "d": d, "ns": ns, "n_individuals": n_ind}
     if forced is not None:
         built = forced(case)
+        opts = case.get("opts") or {}
     else:
-        built = build_state(env, chk, rng, kind, d, ns, n_ind, case)
+        opts = opts or {}
+        built = build_state(env, chk, rng, kind, d, ns, n_ind, case, opts)
     if built is None:
         return
     model, ds, state = built
+    daf = not opts.get("keep_fork")
+    bern = case["settings"]["obs_models"]["y"] == "bernoulli"
     try:
         with core.quiet():
             before = snapshot(env, state, kind, ns)
-            A = state.clone(disable_auto_fork=True)
+            A = state.clone(disable_auto_fork=daf)
             type(model)._center_xi_realizations(A)
             after_direct = snapshot(env, A, kind, ns)
-            B = state.clone(disable_auto_fork=True)
+            B = state.clone(disable_auto_fork=daf)
             suff = model.compute_sufficient_statistics(B)
             after = snapshot(env, B, kind, ns)
             untouched = snapshot(env, state, kind, ns)
@@ -251,7 +299,8 @@ def center_case(chk, env, rng, kind, d, ns, n_ind, lines, pending, forced=None):
             twice = snapshot(env, A2, kind, ns)
             gc = case.get("gauge_c")
             if gc is None:
-                gc = f32(rng.uniform(-2, 2))
+                # (wide) a change of the speed unit by up to exp(+-8)
+                gc = f32(rng.uniform(-8, 8) if (opts.get("wide") and rng.random() < 0.6) else rng.uniform(-2, 2))
                 case["gauge_c"] = gc
             S = state.clone(disable_auto_fork=True)
             S["xi"] = (state["xi"] - gc).float()
@@ -274,6 +323,12 @@ def center_case(chk, env, rng, kind, d, ns, n_ind, lines, pending, forced=None):
     n = ds.n_individuals
     xi0 = before["xi"].reshape(-1)
     m_true = float(xi0.mean())
+    # 0'. (states taken from a running fit) the fit's own call left exactly what the direct call leaves
+    for k, v in (expect_after or {}).items():
+        if k in after and not torch.equal(after[k], v):
+            fails.append(f"the re-centring performed inside the fit left another '{k}' than compute_sufficient_statistics called on a copy of the same state "
+                         f"(max difference {float((after[k] - v).abs().max()):.3g})")
+            break
     # 0. the two entry points agree, the source state is not modified by working on clones
     for k in after:
         if not torch.equal(after[k], after_direct[k]):
@@ -337,59 +392,74 @@ def center_case(chk, env, rng, kind, d, ns, n_ind, lines, pending, forced=None):
                 if abs(b - ref[j][k]) > tol[j][k]:
                     fails.append(f"model value of individual {i}, visit {j}, feature {k} is {b!r}, closed form {ref[j][k]!r}")
     chk.extra_cov["max_model_change"] = max(chk.extra_cov.get("max_model_change", 0.0), worst_model)
-    # 3. gaussian attachment unchanged
+    # 3. attachment of the outcomes unchanged (gaussian: current noise level; binary outcomes: Bernoulli)
     key_y = "nll_attach_y_ind" if kind == "joint" else "nll_attach_ind"
-    sig = val(env, state["noise_std"]).reshape(-1).tolist()
+    sig = [1.0] if bern else val(env, state["noise_std"]).reshape(-1).tolist()
     yv, mask = ds.values.double(), ds.mask.double()
     for i in range(n):
         bound, nobs = 0.0, 0
         for j in range(nvis[i]):
             for k in range(d):
                 if mask[i, j, k] > 0:
-                    s = sig[k] if len(sig) > 1 else sig[0]
                     t2 = 2 * tols[i][j][k]
-                    bound += (abs(float(yv[i, j, k]) - float(before["model"][i, j, k])) * t2 + t2 * t2) / (s * s)
+                    if bern:
+                        # d/dp of -log p^y (1-p)^(1-y) is 1/p resp. 1/(1-p), p clamped to [eps, 1-eps] by torch
+                        pm_ = float(before["model"][i, j, k])
+                        q = pm_ if float(yv[i, j, k]) == 1.0 else 1.0 - pm_
+                        bound += 2.0 * t2 / max(q - t2, 2.0 ** -23)
+                    else:
+                        s = sig[k] if len(sig) > 1 else sig[0]
+                        bound += (abs(float(yv[i, j, k]) - float(before["model"][i, j, k])) * t2 + t2 * t2) / (s * s)
                     nobs += 1
         b, a = float(before[key_y].reshape(-1)[i]), float(after[key_y].reshape(-1)[i])
         lsig = max(abs(math.log(s)) for s in sig)
         bound += 64 * EPS32 * (abs(b) + nobs * (lsig + 1))
-        if abs(a - b) > bound:
+        if not abs(a - b) <= bound:
             fails.append(f"attachment term '{key_y}' of individual {i} changed by the re-centring: {b!r} -> {a!r} (envelope {bound:.3g})")
-    # 4. joint: event likelihood unchanged
+    # 4. joint: event likelihood unchanged (every competing event)
     if kind == "joint":
-        rho = float(before["rho"].reshape(-1)[0])
-        nu = float(before["nu"].reshape(-1)[0])
-        ev_t = ds.event_time.double().reshape(n, -1)[:, 0].tolist()
-        ev_b = ds.event_bool.reshape(n, -1)[:, 0].tolist()
+        rhos = before["rho"].reshape(-1).tolist()
+        nus = before["nu"].reshape(-1).tolist()
+        ne = len(rhos)
+        ev_t = ds.event_time.double().reshape(n, -1).tolist()
+        ev_b = ds.event_bool.reshape(n, -1).tolist()
+        if len(ev_t[0]) != ne or before["n_log_nu"].numel() != ne:
+            fails.append(f"{len(ev_t[0])} event columns in the data, {ne} Weibull shapes, {before['n_log_nu'].numel()} n_log_nu in the state")
         worst_ev = 0.0
         for i in range(n):
             xi_i, tau_i = float(xi0[i]), float(before["tau"].reshape(-1)[i])
-            sshift = float(before["survival_shifts"][i].reshape(-1)[0]) if ns > 0 else 0.0
-            nu_rep = nu * math.exp(-(xi_i + sshift / rho)) if ns > 0 else math.exp(-xi_i) * nu
-            dt = max(ev_t[i] - tau_i, 0.0)
-            surv = (dt / nu_rep) ** rho
-            lh = abs(math.log(rho / nu_rep)) + abs((rho - 1) * math.log(dt / nu_rep)) if dt > 0 else 0.0
-            bound = 64 * EPS32 * (1 + rho) * (surv + lh + 1.0)
+            bound = 0.0
+            for e_ in range(min(ne, len(ev_t[i]))):
+                rho, nu = rhos[e_], nus[e_]
+                sshift = float(before["survival_shifts"][i].reshape(-1)[e_]) if ns > 0 else 0.0
+                nu_rep = nu * math.exp(-(xi_i + sshift / rho)) if ns > 0 else math.exp(-xi_i) * nu
+                dt = max(ev_t[i][e_] - tau_i, 0.0)
+                surv = (dt / nu_rep) ** rho
+                lh = abs(math.log(rho / nu_rep)) + abs((rho - 1) * math.log(dt / nu_rep)) if dt > 0 else 0.0
+                bound += 64 * EPS32 * (1 + rho) * (surv + lh + 1.0)
             b, a = float(before["nll_attach_event_ind"].reshape(-1)[i]), float(after["nll_attach_event_ind"].reshape(-1)[i])
             worst_ev = max(worst_ev, abs(a - b) / (abs(b) + 1))
             if not abs(a - b) <= bound:
-                fails.append(f"event likelihood of individual {i} (event at {ev_t[i]}, observed={bool(ev_b[i])}) changed by the re-centring: {b!r} -> {a!r} (envelope {bound:.3g})")
-            b, a = float(before["nll_attach_ind"].reshape(-1)[i]), float(after["nll_attach_ind"].reshape(-1)[i])
+                fails.append(f"event likelihood of individual {i} (event at {ev_t[i]}, observed={[bool(x) for x in ev_b[i]]}) changed by the re-centring: {b!r} -> {a!r} (envelope {bound:.3g})")
+            if abs(b) >= 1e300 and a != b:
+                fails.append(f"prohibitive constant of individual {i} (event before the reference time) changed by the re-centring: {b!r} -> {a!r}")
         chk.extra_cov["max_rel_event_nll_change"] = max(chk.extra_cov.get("max_rel_event_nll_change", 0.0), worst_ev)
         # reparametrised scale from the public variables nu, xi (and survival shifts)
         for i in range(n):
-            args = f"nurep nlognu={fmt_float(float(before['n_log_nu'].reshape(-1)[0]))} xi={fmt_float(float(xi0[i]))} m={fmt_float(m_true)}"
-            if ns > 0:
-                args += f" rho={fmt_float(rho)} s={fmt_float(float(before['survival_shifts'][i].reshape(-1)[0]))}"
-            else:
-                args += " rho=none s=none"
-            def nurep(snap):
-                x = float(snap["xi"].reshape(-1)[i]); nn = float(snap["nu"].reshape(-1)[0]); r = float(snap["rho"].reshape(-1)[0])
+            for e_ in range(ne):
+                args = f"nurep nlognu={fmt_float(float(before['n_log_nu'].reshape(-1)[e_]))} xi={fmt_float(float(xi0[i]))} m={fmt_float(m_true)}"
                 if ns > 0:
-                    return nn * math.exp(-(x + float(snap["survival_shifts"][i].reshape(-1)[0]) / r))
-                return math.exp(-x) * nn
-            lines.append(args)
-            pending.append(("nurep", dict(case, individual=i), (nurep(before), nurep(after)), None))
+                    args += f" rho={fmt_float(rhos[e_])} s={fmt_float(float(before['survival_shifts'][i].reshape(-1)[e_]))}"
+                else:
+                    args += " rho=none s=none"
+
+                def nurep(snap, i=i, e_=e_):
+                    x = float(snap["xi"].reshape(-1)[i]); nn = float(snap["nu"].reshape(-1)[e_]); r = float(snap["rho"].reshape(-1)[e_])
+                    if ns > 0:
+                        return nn * math.exp(-(x + float(snap["survival_shifts"][i].reshape(-1)[e_]) / r))
+                    return math.exp(-x) * nn
+                lines.append(args)
+                pending.append(("nurep", dict(case, individual=i, event=e_), (nurep(before), nurep(after)), None))
     # 6. gauge completeness on the real code: idempotence, constancy on the orbit, sufficient statistics, regularity term
     gauge_extra(chk, env, case, kind, n, before, after_direct, twice, orbit, suff, std_new, has_xi_mean_rule, gc, tol_mean, fails, lines, pending)
     # 5. space shifts / mixing unchanged up to rounding (the new v0 is collinear to the old one)
@@ -420,10 +490,31 @@ def center_case(chk, env, rng, kind, d, ns, n_ind, lines, pending, forced=None):
     pending.append(("gauge", case, impl, None))
     chk.case(("center", kind, d, ns, json.dumps(case.get("latents"), sort_keys=True)), nontrivial=(n >= 2 and abs(m_true) > 1e-3),
              sample={k: case[k] for k in ("op", "kind", "d", "ns", "n_individuals", "latents")} if d <= 2 and n <= 3 else None,
-             tags={"center_kind": kind, "center_dimension": d, "center_sources": ns, "center_n_individuals": n})
-    # orthogonality on this very state too
+             tags={"center_kind": kind, "center_dimension": d, "center_sources": ns, "center_n_individuals": n,
+                   "center_obs": case["settings"]["obs_models"]["y"], "center_events": case["settings"].get("nb_events", 0),
+                   "center_opts": ",".join(sorted(k for k, v in opts.items() if v)) or "base",
+                   "center_mean_xi": "0" if m_true == 0 else ("<-2" if m_true < -2 else "<0" if m_true < 0 else "<=2" if m_true <= 2 else ">2")})
+    # orthogonality on this very state too, on the centred one, and on the SAME centred state after writing other positions /
+    # velocities / mixing coefficients into it one at a time (a basis kept from before would be orthogonal to the old direction)
     if ns > 0:
         ortho_state(chk, env, case, kind, before, lines, pending)
+        ortho_state(chk, env, dict(case, after="re-centring"), kind, after, lines, pending)
+        edits = case.get("edits")
+        if edits is None:
+            posname = "g" if kind == "linear" else "log_g"
+            edits = [[posname, [f32(rng.uniform(-1.0, 2.5)) for _ in range(d)]],
+                     ["log_v0", [f32(rng.uniform(-6.0, -1.5)) for _ in range(d)]],
+                     ["betas", [[f32(rng.uniform(-0.5, 0.5)) for _ in range(ns)] for _ in range(d - 1)]]]
+            case["edits"] = edits
+        for nm, new_v in edits:
+            try:
+                with core.quiet():
+                    B[nm] = torch.tensor(new_v)
+                    snap = snapshot(env, B, kind, ns)
+            except Exception as e:  # noqa
+                chk.impl_failure(dict(case, after=f"writing {nm}"), f"state refused admissible value of {nm}: {err_class(e, env)}: {e}")
+                break
+            ortho_state(chk, env, dict(case, after=f"writing {nm} = {new_v} into the centred state"), kind, snap, lines, pending)
 
 
 def gauge_extra(chk, env, case, kind, n, before, once, twice, orbit, suff, std_new, has_xi_mean_rule, gc, tol_mean, fails, lines, pending):
@@ -462,7 +553,10 @@ def gauge_extra(chk, env, case, kind, n, before, once, twice, orbit, suff, std_n
     dev0 = (xi0 - m)
     s2 = float((dev0 * dev0).sum())          # = sum xi^2 - n m^2, in double
     s2_alt = float((xi0 * xi0).sum()) - n * m * m
-    env_sq = 2 * (2 * (n + 2) * EPS32 * (xmax + abs(m)) * float(dev0.abs().sum()) + 4 * EPS32 * s2) + 1e-30
+    # first order in the entry error delta of xi' (|delta| <= 2(n+2) eps32 (max|xi| + |m|): the float32 mean and the subtraction), plus the
+    # second-order term n delta^2 that is all there is when every xi_i equals the mean (sum of squares of pure rounding residues)
+    delta_xi = 2 * (n + 2) * EPS32 * (xmax + abs(m))
+    env_sq = 2 * (delta_xi * float(dev0.abs().sum()) + 4 * EPS32 * s2 + n * delta_xi * delta_xi) + 1e-30
     if sx is not None:
         if abs(sx) > n * tol_mean:
             fails.append(f"sum of the collected statistic 'xi' is {sx!r}, not 0 (envelope {n*tol_mean:.3g}; mean removed {m!r})")
@@ -553,26 +647,52 @@ def check_ortho(chk, env, case, a, mixing, shifts, betas, sources, basis):
         chk.impl_failure(case, f)
 
 
-def shared_case(chk, env, rng, d, ns, n_ind, lines, pending):
-    """shared-speed model: no re-centring; orthogonality of mixing rows / space shifts to g_metric * collin."""
+SHARED_NAMES = ("collin_to_d_gamma_t0", "g_metric", "metric", "mixing_matrix", "space_shifts", "betas", "sources", "orthonormal_basis",
+                "log_g", "deltas")
+
+
+def shared_case(chk, env, rng, d, ns, n_ind, lines, pending, opts=None):
+    """shared-speed model: no re-centring; orthogonality of mixing rows / space shifts to g_metric * collin.
+    With opts['edit'] the SAME state then gets another log_g, other deltas and other betas written into it, one at a time, and is
+    evaluated again after each (the basis must follow the current positions)."""
     torch = env["torch"]
+    opts = opts or {}
     case = {"op": "ortho-shared", "kind": "shared_speed_logistic", "d": d, "ns": ns, "n_individuals": n_ind}
-    st = settings_for(rng, "shared_speed_logistic", d, ns)
+    st = settings_for(rng, "shared_speed_logistic", d, ns, opts)
     case["settings"] = st
     try:
         with core.quiet():
             model = env["BaseModel"].load(st)
-            state = model.state.clone(disable_auto_fork=True)
-            src = torch.tensor([[f32(rng.uniform(-1.5, 1.5)) for _ in range(ns)] for _ in range(n_ind)])
+            state = model.state.clone(disable_auto_fork=not opts.get("keep_fork"))
+            smag = 4.0 if opts.get("wide") and rng.random() < 0.3 else 1.5
+            src = torch.tensor([[f32(rng.uniform(-smag, smag)) for _ in range(ns)] for _ in range(n_ind)])
             state["sources"] = src
             state["xi"] = torch.zeros((n_ind, 1))
             state["tau"] = torch.full((n_ind, 1), 70.0)
-            snap = {k: val(env, state[k]) for k in ("collin_to_d_gamma_t0", "g_metric", "metric", "mixing_matrix", "space_shifts",
-                                                    "betas", "sources", "orthonormal_basis", "log_g", "deltas")}
+            snap = {k: val(env, state[k]) for k in SHARED_NAMES}
     except Exception as e:  # noqa
         chk.impl_failure(case, f"shared-speed state could not be evaluated: {err_class(e, env)}: {e}")
         return
     case["sources"] = src.tolist()
+    shared_eval(chk, env, case, st, snap, n_ind, lines, pending, opts)
+    if opts.get("edit") and d > 1:
+        edits = [["log_g", [f32(rng.uniform(-2.0, 4.0))]],
+                 ["deltas", [f32(rng.choice([rng.uniform(-1.5, 1.5), rng.choice([-1, 1]) * rng.uniform(3.2, 6.0)])) for _ in range(d - 1)]],
+                 ["betas", [[f32(rng.uniform(-0.5, 0.5)) for _ in range(ns)] for _ in range(d - 1)]]]
+        for nm, new_v in edits:
+            c2 = dict(case, after=f"writing {nm} = {new_v} into the same state")
+            try:
+                with core.quiet():
+                    state[nm] = torch.tensor(new_v)
+                    snap = {k: val(env, state[k]) for k in SHARED_NAMES}
+            except Exception as e:  # noqa
+                chk.impl_failure(c2, f"shared-speed state refused an admissible value of {nm}: {err_class(e, env)}: {e}")
+                return
+            shared_eval(chk, env, c2, st, snap, n_ind, lines, pending, opts, count=False)
+
+
+def shared_eval(chk, env, case, st, snap, n_ind, lines, pending, opts, count=True):
+    d, ns = case["d"], case["ns"]
     a = (snap["g_metric"] * snap["collin_to_d_gamma_t0"]).reshape(-1)
     check_ortho(chk, env, case, a, snap["mixing_matrix"], snap["space_shifts"], snap["betas"], snap["sources"], snap["orthonormal_basis"])
     # the logit-space reading: sum_k metric_k * w_k = 0
@@ -596,45 +716,84 @@ def shared_case(chk, env, rng, d, ns, n_ind, lines, pending):
     pending.append(("ortho", case, {"basis": snap["orthonormal_basis"].tolist(), "mixing": snap["mixing_matrix"].tolist(),
                                     "shifts": snap["space_shifts"].tolist(), "betas": snap["betas"].tolist(),
                                     "src": snap["sources"].tolist(), "eps": EPS32}, None))
-    chk.case(("shared", d, ns, json.dumps(st["parameters"], sort_keys=True), json.dumps(case["sources"])), nontrivial=True,
-             sample=None, tags={"ortho_kind": "shared_speed_logistic", "ortho_dimension": d, "ortho_sources": ns})
+    if count:
+        chk.case(("shared", d, ns, json.dumps(st["parameters"], sort_keys=True), json.dumps(case["sources"])), nontrivial=True,
+                 sample=None, tags={"ortho_kind": "shared_speed_logistic", "ortho_dimension": d, "ortho_sources": ns,
+                                    "ortho_opts": ",".join(sorted(k for k, v in opts.items() if v)) or "base"})
+
+
+def same_values(a, b):
+    return a.shape == b.shape and bool(((a == b) | ((a != a) & (b != b))).all())
 
 
 def direct_case(chk, env, rng, lines, pending, spec=None):
     """compute_orthonormal_basis called directly: any strip column, both dtypes, the refusals, the excluded point."""
     torch, cob = env["torch"], env["cob"]
     if spec is None:
-        d = rng.randrange(1, 7)
+        d = rng.randrange(1, 7) if rng.random() < 0.85 else rng.randrange(7, 13)
         dtype = rng.choice(["float32", "float64"])
         dg = [f32(rng.choice([1, -1]) * math.exp(rng.uniform(-4, 2))) for _ in range(d)]
         G = [f32(math.exp(rng.uniform(-2, 4))) for _ in range(d)]
         j = rng.randrange(0, d)
-        flavour = rng.choice(["ok"] * 4 + ["nometric", "nometric", "scalar", "neg", "size", "strip"])
+        flavour = rng.choice(["ok"] * 4 + ["nometric", "nometric", "scalar", "neg", "size", "strip", "matrix", "matrix", "matrix_bad", "tiny", "tiny", "huge"])
         scalar = False
+        G2 = None
         if flavour == "nometric":          # Euclidean case: G is the identity
             G = [1.0] * d
         elif flavour == "scalar":          # 0-D metric: G proportional to the identity (the `G_metric.item() * dgamma_t0` branch)
             G = [G[0]] * d
             scalar = True
-        if flavour == "neg":
+        elif flavour == "tiny":            # |G dgamma| far below 1 (ages in days, outcomes that hardly move)
+            c_ = math.exp(rng.uniform(-30, -9))       # documented: any vector collinear to the velocity gives the same basis
+            dg = [f32(x * c_) for x in dg]
+        elif flavour == "huge":
+            c_ = math.exp(rng.uniform(6, 25))
+            dg = [f32(x * c_) for x in dg]
+        if flavour == "neg" and rng.random() < 0.3:      # 0-D metric that is zero or negative
+            G = [rng.choice([0.0, -1.0, -0.5])] * d
+            scalar = True
+        elif flavour == "neg":
             G[rng.randrange(d)] = rng.choice([0.0, -1.0])
         elif flavour == "size":
             G = G + [1.0]
         elif flavour == "strip":
             j = d + rng.randrange(0, 2)
+        elif flavour in ("matrix", "matrix_bad"):
+            # 2-D metric (documented: a general symmetric positive-definite G): diagonal + a rank-one term
+            u = [f32(rng.uniform(-1, 1)) for _ in range(d)]
+            G2 = [[f32((G[r] if r == c else 0.0) + 0.5 * u[r] * u[c]) for c in range(d)] for r in range(d)]
+            if flavour == "matrix_bad":
+                G2 = rng.choice([[row + [0.0] for row in G2], [G2]])      # d x (d+1), resp. a 3-D metric
         spec = {"dgamma": dg, "G": G, "j": j, "dtype": dtype}
         if scalar:
             spec["scalar"] = True
+        if G2 is not None:
+            spec["G2"] = G2
+        if rng.random() < 0.15:
+            spec["ambient"] = "f64default"     # torch.eye(dimension) inside the function follows the process-wide default dtype
     case = dict(spec, op="compute_orthonormal_basis")
     dt = torch.float64 if spec["dtype"] == "float64" else torch.float32
     eps = 2.0 ** -53 if spec["dtype"] == "float64" else EPS32
     dg, G, j = spec["dgamma"], spec["G"], spec["j"]
     d = len(dg)
+    G2 = spec.get("G2")
+    a_eff = None
+    prev_default = torch.get_default_dtype()
     try:
         with core.quiet():
-            Gt = torch.tensor(G[0], dtype=dt) if spec.get("scalar") else torch.tensor(G, dtype=dt)
-            Q = cob(torch.tensor(dg, dtype=dt), Gt, strip_col=j)
+            if spec.get("ambient") == "f64default":
+                torch.set_default_dtype(torch.float64)
+            if G2 is not None:
+                Gt = torch.tensor(G2, dtype=dt)
+            else:
+                Gt = torch.tensor(G[0], dtype=dt) if spec.get("scalar") else torch.tensor(G, dtype=dt)
+            dgt = torch.tensor(dg, dtype=dt)
+            Q = cob(dgt, Gt, strip_col=j)
+            if not same_values(dgt, torch.tensor(dg, dtype=dt)) or (G2 is None and not spec.get("scalar") and not same_values(Gt, torch.tensor(G, dtype=dt))):
+                chk.impl_failure(case, "compute_orthonormal_basis modified its arguments in place")
         impl = {"basis": Q.double().tolist(), "eps": eps}
+        if G2 is not None and Gt.dim() == 2 and tuple(Gt.shape) == (d, d):
+            a_eff = (Gt @ dgt).double().tolist()        # the very product the function forms, in its dtype
     except AssertionError:
         impl = "err:stripcol"
     except Exception as e:  # noqa
@@ -643,9 +802,27 @@ def direct_case(chk, env, rng, lines, pending, spec=None):
             impl = "err:negmetric" if ("negative" in str(e)) else "err:size"
         else:
             impl = c
+    finally:
+        torch.set_default_dtype(prev_default)
+    if G2 is not None:
+        # the model knows diagonal metrics: it is asked for the basis orthogonal to a = G @ dgamma with the identity metric
+        # (an inadmissible 2-D / 3-D metric is put to it as a metric of the wrong size)
+        ok2 = len(G2) == d and all(isinstance(r, list) and len(r) == d and all(not isinstance(x, list) for x in r) for r in G2)
+        slack_mv = 0.0
+        if ok2:
+            # the predicate's own direction: G @ dgamma in double; the function forms it in its dtype (d products and sums per entry)
+            a_true = [sum(G2[r][c] * dg[c] for c in range(d)) for r in range(d)]
+            slack_mv = (d + 2) * eps * math.sqrt(sum(sum(abs(G2[r][c] * dg[c]) for c in range(d)) ** 2 for r in range(d)))
+            if a_eff is None:
+                a_eff = a_true
+        dg, G = (a_eff, [1.0] * d) if ok2 else (dg, [1.0] * (d + 1))
+    else:
+        a_true, slack_mv = None, 0.0
     # predicate
     valid = all(g > 0 for g in G) and len(G) == d and 0 <= j < d
     a = [g * x for g, x in zip(G, dg)] if len(G) == d else None
+    if valid and G2 is not None:
+        a = a_true
     excluded = valid and a[j] == 0.0
     if not valid:
         if not isinstance(impl, str):
@@ -663,7 +840,7 @@ def direct_case(chk, env, rng, lines, pending, spec=None):
             if excluded:
                 chk.extra_cov["excluded_point_max_dot"] = max(chk.extra_cov.get("excluded_point_max_dot", 0.0), float(dots.max() / (av.norm() + 1e-300)))
             else:
-                if float(dots.max()) > 64 * eps * float(av.norm()):
+                if float(dots.max()) > 64 * eps * float(av.norm()) + slack_mv:
                     chk.impl_failure(case, f"basis column not orthogonal to G*dgamma: |<col, a>| = {float(dots.max()):.3g}, ||a|| = {float(av.norm()):.3g}")
                 if float(gram) > 64 * eps:
                     norms = (B * B).sum(0).sqrt()
@@ -672,7 +849,7 @@ def direct_case(chk, env, rng, lines, pending, spec=None):
                 # completeness: [a/||a|| | B] is a full orthonormal frame, i.e. B B^T is the projector onto the complement of a
                 ah = av / av.norm()
                 comp = (B @ B.t() + ah.view(-1, 1) * ah - torch.eye(d, dtype=torch.float64)).abs().max()
-                if float(comp) > 64 * eps:
+                if float(comp) > 64 * eps + 4 * slack_mv / float(av.norm()):
                     chk.impl_failure(case, f"B B^T is not the orthogonal projector onto the complement of a = G*dgamma: max |B B^T + a a^T/|a|^2 - I| = {float(comp):.3g} (envelope {64*eps:.3g})")
                 # for the record: the basis is NOT orthonormal for the metric unless G is scalar (basis_metric_orthonormal_counterexample)
                 Gv = torch.tensor(G, dtype=torch.float64)
@@ -684,14 +861,19 @@ def direct_case(chk, env, rng, lines, pending, spec=None):
                     chk.tag("metric_gram", "not-metric-orthonormal" if gdev > 64 * eps else "metric-orthonormal-by-accident")
                     chk.extra_cov["max_metric_gram_dev"] = max(chk.extra_cov.get("max_metric_gram_dev", 0.0), gdev)
                 sgn = 1.0 if a[j] > 0 else -1.0
+                # the direction as the model is given it (differs from `a` only for a 2-D metric: the product formed in the dtype)
+                av_m = torch.tensor([g * x for g, x in zip(G, dg)], dtype=torch.float64)
+                ah_m = av_m / av_m.norm()
                 lines.append(f"gram dgamma={fmt_list(dg, fmt_float)} G={fmt_list(G, fmt_float)} j={j}")
                 pending.append(("gram", case, {"gram": (B.t() @ B).tolist(), "proj": (B @ B.t()).tolist(),
                                                "gramg": (B.t() @ (Gv.view(-1, 1) * B)).tolist(), "gmax": float(Gv.max()),
-                                               "colj": (-sgn * ah).tolist(), "eps": eps}, None))
+                                               "colj": (-sgn * ah_m).tolist(), "eps": eps}, None))
     lines.append(f"ortho dgamma={fmt_list(dg, fmt_float)} G={fmt_list(G, fmt_float)} j={j} betas=none src=none")
     pending.append(("ortho", case, impl, None))
     chk.case(("direct", json.dumps(spec, sort_keys=True)), nontrivial=(valid and d > 1 and not excluded), sample=spec if d <= 3 and len(chk.samples) < 5 else None,
-             tags={"direct": ("excluded-point" if excluded else "ok") if valid else "refused", "direct_dtype": spec["dtype"], "strip_col": j})
+             tags={"direct": ("excluded-point" if excluded else "ok") if valid else "refused", "direct_dtype": spec["dtype"], "strip_col": j,
+                   "direct_metric": "2-D" if G2 is not None else "0-D" if spec.get("scalar") else "1-D", "direct_dimension": d if d <= 6 else ">6",
+                   "direct_ambient": spec.get("ambient", "default")})
 
 
 # ----------------------------------------------------------------------------------------------
@@ -835,6 +1017,80 @@ def compare(chk, lines, pending):
 
 
 # ----------------------------------------------------------------------------------------------
+def fit_case(chk, env, rng, lines, pending, spec=None):
+    """The re-centring where it lives: a real (short) fit.  `compute_sufficient_statistics` and `update_parameters` of the model are
+    wrapped call-through: (1) every iteration re-centres (as many calls as iterations; at the time of every maximisation the
+    log-accelerations are zero-mean); (2) copies of the chain's state taken just before the call go through the whole battery of
+    `center_case` (invariance of model values / attachment / event terms, gauge, statistics, orthogonality, Lean model), and
+    what the fit's own call left must equal what the direct call leaves on the copy."""
+    torch = env["torch"]
+    from leaspy.models import model_factory
+    if spec is None:
+        kind = rng.choice(["logistic", "linear", "joint", "joint"])
+        d = rng.choice([1, 2, 3])
+        ns = 0 if d == 1 else rng.choice([0, 1, d - 1])
+        ne = rng.choice([1, 2]) if kind == "joint" else 0
+        n_ind = rng.randrange(6, 11)
+        spec = {"kind": kind, "d": d, "ns": ns, "nb_events": ne, "n_iter": rng.randrange(3, 7), "seed": rng.randrange(10 ** 6),
+                "table": make_table(rng, n_ind, d, kind == "joint", nb_events=max(ne, 1))}
+    kind, d, ns, ne = spec["kind"], spec["d"], spec["ns"], spec["nb_events"]
+    case = dict(spec, op="fit-center")
+    stash, at_mstep = [], []
+    try:
+        with core.quiet():
+            ds = read_cohort(env, spec["table"], kind)
+            kw = dict(dimension=d, source_dimension=ns)
+            if kind == "joint":
+                kw["nb_events"] = ne
+                if ns == 0 and d > 1:
+                    kw["obs_models"] = "gaussian-scalar"   # the joint model without sources only supports the scalar-noise observation model
+            model = model_factory(kind, **kw)
+            orig_css, orig_up = model.compute_sufficient_statistics, model.update_parameters
+
+            def css(state):
+                copy = state.clone(disable_auto_fork=True)
+                r = orig_css(state)
+                stash.append((copy, snapshot(env, state, kind, ns)))
+                return r
+
+            def up(state, ss, *, burn_in):
+                at_mstep.append((float(state["xi"].double().mean()), float(state["xi"].abs().max()), state["xi"].numel()))
+                return orig_up(state, ss, burn_in=burn_in)
+            model.compute_sufficient_statistics = css
+            model.update_parameters = up
+            model.fit(ds, "mcmc_saem", n_iter=spec["n_iter"], seed=spec["seed"], progress_bar=False)
+    except env["lex"].LeaspyConvergenceError:
+        chk.tag("fit_center", "fit-did-not-converge")
+        return
+    except Exception as e:  # noqa
+        if not stash and "Scale of variable" in str(e):
+            # the data-driven initial value of a population variable is exactly 0 on this random table and the sampler derives its
+            # proposal scale from it: the fit never starts (not this property's matter; counted)
+            chk.tag("fit_center", "refused-at-initialisation (zero initial value -> zero proposal scale)")
+            return
+        chk.impl_failure(case, f"short fit on an admissible cohort aborted: {err_class(e, env)}: {e}")
+        return
+    if len(stash) != spec["n_iter"] or len(at_mstep) != spec["n_iter"]:
+        chk.impl_failure(case, f"{len(stash)} re-centrings / {len(at_mstep)} maximisations for {spec['n_iter']} iterations: the re-centring is not applied at every iteration")
+    for it, (mean, xmax, n) in enumerate(at_mstep, 1):
+        tol = 2 * (n + 2) * EPS32 * (2 * xmax + 1.0)
+        if abs(mean) > tol:
+            chk.impl_failure(dict(case, iteration=it), f"at the maximisation step of iteration {it} the log-accelerations have mean {mean!r} (envelope {tol:.3g}): not re-centred")
+            break
+    obsname = [om.to_string() for om in model.obs_models][0]
+    picks = sorted({0, len(stash) // 2, len(stash) - 1}) if stash else []
+    for ix in picks:
+        copy, after_fit = stash[ix]
+
+        def forced(c, copy=copy, ix=ix):
+            c.update({"settings": {"obs_models": {"y": obsname}, "nb_events": ne}, "fit": {k: v for k, v in spec.items()}, "iteration": ix + 1,
+                      "latents": {k: val(env, copy[k]).tolist() for k in ("xi", "tau", "log_v0")}, "op": "fit-center"})
+            return model, ds, copy
+        center_case(chk, env, rng, kind, d, ns, ds.n_individuals, lines, pending, forced=forced, expect_after=after_fit)
+    chk.tag("fit_center", f"{kind}:ok")
+
+
+# ----------------------------------------------------------------------------------------------
 EXCLUDED = [
     {"dgamma": [0.0, 1.0], "G": [1.0, 1.0], "j": 0, "dtype": "float32"},
     {"dgamma": [0.0, 3.0, 4.0], "G": [1.0, 1.0, 1.0], "j": 0, "dtype": "float64"},
@@ -861,7 +1117,18 @@ def run(chk: core.Check):
                 "dtypes, 1-D metric / identity metric / 0-D scalar metric, refused inputs, the excluded point a_j = 0): B^T B = I, B B^T + a a^T/|a|^2 = I. "
                 "gauge completeness on every centring case: second centring, centring after a random gauge shift c in [-2, 2], sums of the collected "
                 "statistics xi / xi_sqr, the real xi_std update rule, nll_regul_xi before / after. Non-trivial: centring with >= 2 individuals and |mean xi| > 1e-3; "
-                "orthogonality with dimension >= 2 at an admissible point; distinct by full state / input.")
+                "orthogonality with dimension >= 2 at an admissible point; distinct by full state / input. "
+                "Hardened generation: a second family of centring cases at the edge of the domain (log_g in [-4, 6], log_v0 from -15.5 to +1.5, mixing "
+                "coefficients 0 / 0.01 / 3, a source with all-zero coefficients, sources up to 4, xi offsets of either sign up to 8 and none at all, "
+                "identical xi for everybody, individuals 4.5 apart, gauge shifts up to +-8, any number of sources, 6 and 11 outcomes, 1 .. 30 individuals, "
+                "1-3 competing events through the public reader with the compensation checked per event, events before the reference time (the "
+                "prohibitive constant must not move), binary outcomes (Bernoulli attachment), clones that keep the automatic fork); orthogonality "
+                "re-checked on the centred state and on the SAME state after writing other positions / velocities / mixing coefficients into it one at "
+                "a time (manifold and shared-speed models); real short fits (3-6 iterations, logistic / linear / joint with 1-2 events) with "
+                "call-through wrappers: one re-centring per iteration, zero-mean xi at every maximisation, copies of the chain's states through the "
+                "whole battery and bitwise agreement between the fit's own call and the direct call; compute_orthonormal_basis with dimension up to "
+                "12, 2-D (general SPD) metrics and their refusals, directions scaled by exp(-30) .. exp(25), process-wide default dtype float64, "
+                "arguments checked untouched.")
     lines, pending = [], []
     for c in core.load_corpus(PROP):
         if c.get("op") == "compute_orthonormal_basis":
@@ -874,14 +1141,37 @@ def run(chk: core.Check):
             for ns in sorted({0, 1, d - 1}):
                 if ns < d and (ns == 0 or d > 1):
                     combos.append((kind, d, ns))
-    rounds = 2 if chk.tier == "quick" else 40
+    quick = chk.tier == "quick"
+    rounds = 2 if quick else 40
     for _ in range(rounds):
         for kind, d, ns in combos:
             center_case(chk, env, rng, kind, d, ns, rng.choice([1, 2, 3, 5, 8]) if kind != "joint" else rng.choice([2, 3, 5, 8]), lines, pending)
         for d in (2, 3, 4, 6):
             for ns in sorted({1, d - 1}):
                 shared_case(chk, env, rng, d, ns, rng.randrange(1, 5), lines, pending)
-    for _ in range(60 if chk.tier == "quick" else 3000):
+    # the same with everything pushed to the edge of what the models accept: positions / velocities / mixing coefficients / offsets of xi
+    # of either sign / far-apart individuals, any number of sources, more than ten outcomes, two competing events, binary outcomes,
+    # one individual, a large cohort, events before the reference time, the state keeping its automatic fork (as in a fit)
+    for _ in range(18 if quick else 250):
+        kind = rng.choice(["logistic", "logistic", "linear", "joint", "joint"])
+        d = rng.choice([1, 2, 3, 4, 4, 6, 11])
+        ns = 0 if d == 1 else rng.randrange(0, d)
+        if d == 11:
+            ns = rng.choice([1, 3, 10])
+        opts = {"wide": True, "keep_fork": rng.random() < 0.5}
+        if kind == "joint":
+            opts["nb_events"] = rng.choice([1, 2, 2, 3])
+        elif kind == "logistic" and rng.random() < 0.4:
+            opts["bern"] = True
+        n_ind = rng.choice([1, 2, 3, 5, 8, 30]) if d < 11 else rng.choice([1, 3])
+        center_case(chk, env, rng, kind, d, ns, n_ind, lines, pending, opts=opts)
+    for _ in range(5 if quick else 80):
+        d = rng.choice([2, 3, 4, 6, 11])
+        shared_case(chk, env, rng, d, rng.randrange(1, d), rng.randrange(1, 5), lines, pending,
+                    opts={"wide": True, "edit": True, "keep_fork": rng.random() < 0.5})
+    for _ in range(3 if quick else 20):
+        fit_case(chk, env, rng, lines, pending)
+    for _ in range(90 if quick else 3000):
         direct_case(chk, env, rng, lines, pending)
     compare(chk, lines, pending)
     if "excluded_point_max_dot" in chk.extra_cov:
@@ -904,20 +1194,24 @@ def replay(chk: core.Check, payload):
 
         def forced(c):
             c.update({"settings": case["settings"], "table": case["table"], "latents": case["latents"]})
-            if "gauge_c" in case:
-                c["gauge_c"] = case["gauge_c"]
+            for k in ("gauge_c", "opts", "edits"):
+                if k in case:
+                    c[k] = case[k]
             kind = case["kind"]
             with core.quiet():
                 model = env["BaseModel"].load(case["settings"])
-                df = pd.DataFrame(case["table"])
-                data = env["Data"].from_dataframe(df, data_type="joint", drop_full_nan=False) if kind == "joint" else env["Data"].from_dataframe(df, drop_full_nan=False)
-                ds = env["Dataset"](data)
-                state = model.state.clone(disable_auto_fork=True)
+                ds = read_cohort(env, case["table"], kind)
+                state = model.state.clone(disable_auto_fork=not (case.get("opts") or {}).get("keep_fork"))
                 model.put_data_variables(state, ds)
                 for k, v in case["latents"].items():
                     state[k] = torch.tensor(v)
             return model, ds, state
-        center_case(chk, env, chk.rng, case["kind"], case["d"], case["ns"], case["n_individuals"], lines, pending, forced=forced)
+        if "fit" in case:
+            fit_case(chk, env, chk.rng, lines, pending, spec=case["fit"])
+        else:
+            center_case(chk, env, chk.rng, case["kind"], case["d"], case["ns"], case["n_individuals"], lines, pending, forced=forced)
+    elif case.get("op") == "fit-center":
+        fit_case(chk, env, chk.rng, lines, pending, spec=case.get("fit") or {k: case[k] for k in ("kind", "d", "ns", "nb_events", "n_iter", "seed", "table")})
     elif case.get("op") == "ortho-shared":
         import random
         shared_case(chk, env, random.Random(0), case["d"], case["ns"], case["n_individuals"], lines, pending)
